@@ -252,12 +252,18 @@ def generate(seed, tier, idx=0):
             t = rng.choice([2 ** 53 + 1, 1790000000000000123, 2 ** 63 + 7])
         if fine:
             t = rng.choice([1000.0, 1e6, 86400.0 * 365])
+        # a whole history on a nanosecond scale (clock in seconds, events ns apart)
+        nano = (not fine) and (not bigint) and rng.random() < 0.12
+        if nano:
+            t = rng.choice([0.0, 0.0, 1e-6, 0.001])
         for _ in range(n):
             dt = rng.choice([0, 0, 0.5, 1, 1, 2, 0.25, 3.0])
             if fine:
                 dt = rng.choice([0, 1e-7, 1e-6, 1e-4, 2 ** -20, 1e-9 * t, 1.0])
             if bigint:
                 dt = rng.choice([0, 1, 1, 3, 100, 255, 1000])
+            if nano:
+                dt = rng.choice([0, 1e-9, 1e-9, 5e-10, 1e-10, 2 ** -32, 1e-12, 3e-9, 1e-8])
             t = t + dt
             ops.append(["reg", t, val()])
             r = rng.random()
@@ -274,13 +280,13 @@ def generate(seed, tier, idx=0):
                 # a closing call that must be refused (and leave the tally open)
                 ops.append(["badend", rng.choice(["regress", "regress_ulp", "nan", "str", "none"])])
             elif r < 0.25 and not closed:
-                t = t + (rng.choice([0, 0.5, 1, 4]) if not (fine or bigint)
-                         else (rng.choice([0, 1e-6, 1e-7, 1.0]) if fine else rng.choice([0, 1, 7])))
+                t = t + (rng.choice([0, 0.5, 1, 4]) if not (fine or bigint or nano)
+                         else rng.choice([0, 1e-9, 4e-10]) if nano else (rng.choice([0, 1e-6, 1e-7, 1.0]) if fine else rng.choice([0, 1, 7])))
                 ops.append(["end", t])
                 closed = True
         if not closed and rng.random() < 0.6:
-            t = t + (rng.choice([0, 0.5, 2]) if not (fine or bigint)
-                     else (rng.choice([0, 1e-6, 1e-7, 2.0]) if fine else rng.choice([0, 2, 9])))
+            t = t + (rng.choice([0, 0.5, 2]) if not (fine or bigint or nano)
+                     else rng.choice([0, 1e-9, 2e-10]) if nano else (rng.choice([0, 1e-6, 1e-7, 2.0]) if fine else rng.choice([0, 2, 9])))
             ops.append(["end", t])
     case = {"kind": kind, "variant": variant, "ops": ops, "quantities": rng.random() < 0.1}
     if kind == "timestamp" and bigint:
